@@ -235,6 +235,16 @@ func strLen(t *Term) *Term {
 }
 
 func (e *Env) eval(x ast.Expr, hint types.Type) SV {
+	v := e.eval0(x, hint)
+	if e.st != nil && e.st.rewrites != nil && len(v.l) == 1 {
+		if c, ok := e.st.rewrites[v.l[0].id]; ok {
+			v.l = []*Term{c}
+		}
+	}
+	return v
+}
+
+func (e *Env) eval0(x ast.Expr, hint types.Type) SV {
 	switch n := x.(type) {
 	case *ast.ParenExpr:
 		return e.eval(n.X, hint)
@@ -915,7 +925,7 @@ func (e *Env) evalCall(n *ast.CallExpr, hint types.Type) SV {
 					k++
 				}
 			}
-			return scalarSV(boolT, Eq(now, want))
+			return scalarSV(boolT, ArrEq(now, want))
 		case "visited": // visited(k): key k was already produced by the enclosing range-over-map loop
 			if e.visited == nil {
 				efail("visited() outside a loop invariant")
